@@ -161,10 +161,11 @@ def z(sort):
 
 class V:
     """symbolic value: z3 term + contract sort"""
-    __slots__ = ("t", "s", "lazy", "all_none")
+    __slots__ = ("t", "s", "lazy", "all_none", "gen")
 
     def __init__(self, t, s, lazy=None):
         self.t, self.s = t, s
+        self.gen = False        # the result of calling a generator FUNCTION under contract (its body runs when it is consumed)
         self.lazy = lazy        # set of heap keys a lazy iterator keeps reading (None: a plain value / snapshot)
         self.all_none = False   # a sequence known to consist of None only ([None] * k)
 
